@@ -49,6 +49,20 @@ def r_conv(ctx):
                   'integer / decimal-string arithmetic only',
                   "%s uses floating point (%s): a 53-bit mantissa rounds for numbers beyond 2^53, so the conversion is not exact "
                   "at every length" % (name, '; '.join(b[1] for b in bad[:2])), inputs='numbers just below a power of the radix, >= 2^53')
+        parsers = []
+        for nd, c, callee, q in ctx.calls()[f.fq]:
+            if q == 'builtins.int' and isinstance(c.func, ast.Name):
+                if len(c.args) == 2 or any(k.arg == 'base' for k in c.keywords):
+                    parsers.append((nd.lineno, 'int(text, base) raises ValueError on the empty sequence'))
+                elif len(c.args) == 1 and isinstance(c.args[0], ast.Name) and c.args[0].id in f.params:
+                    for atom, pol in ctx.conds(f, nd):
+                        if pol and atom[0] == 'cmp' and atom[1] in ('==', 'is') and is_call(atom[2], 'builtins.type') \
+                                and atom[3] == ('g', 'builtins.str'):
+                            parsers.append((nd.lineno, 'int(<decimal string>) is limited to 4300 digits by CPython (>= 3.11)'))
+        run.check(not parsers, 'R-CONV', f, 'no-native-parser', parsers[0][0] if parsers else f.node.lineno,
+                  'no int(text[, base]) shortcut on a sequence / decimal-string argument',
+                  "%s converts through Python's integer parser (%s): the conversion is no longer total at every length"
+                  % (name, parsers[0][1] if parsers else ''), inputs='the empty sequence / numbers beyond 4300 decimal digits')
         if name in ('bit_to_number', 'dna_to_number'):
             # string-typed result must come from the decimal-string helpers, not from str(<native int>)
             strs = []
